@@ -37,6 +37,9 @@ import (
 //   evict <i>...                     Evict(queries.File{Opener, "f<i>.proto"}) for each i
 //   link <i,j,..>                    compile the workspace on the long-lived executor and on a new one; compare
 //   dump                             task table of the long-lived executor (abstract keys, deps/callers)
+//   putx <i> <imports|-> <errs|->    write an INVALID file f<i>.proto (error tokens: see incrqErrText)
+//   diag <i,j,..> <reps>             (engine incr_diag, C36) reps compilations on the long-lived executor + fresh
+//                                    executors at parallelism 1,2,4,8: all reports must be the same ordered lists
 //   shape                            inspect queries/*.go: who opens files, which queries each Execute resolves
 //
 // File text (all in package p):
@@ -64,6 +67,7 @@ func (m *incrqOpener) Open(path string) (*source.File, error) {
 }
 
 type incrqEngine struct {
+	name string
 	p    int
 	mem  *incrqOpener
 	op   source.Opener
@@ -76,9 +80,13 @@ type incrqEngine struct {
 	fdpCount map[string]int
 }
 
-func init() { Register("incr_queries", func() Engine { return &incrqEngine{} }) }
+func init() {
+	Register("incr_queries", func() Engine { return &incrqEngine{name: "incr_queries"} })
+	// incr_diag (C36, executor clause): same files and executor, op family `diag`
+	Register("incr_diag", func() Engine { return &incrqEngine{name: "incr_diag"} })
+}
 
-func (e *incrqEngine) Name() string { return "incr_queries" }
+func (e *incrqEngine) Name() string { return e.name }
 
 func (e *incrqEngine) Reset() {
 	e.mem = &incrqOpener{files: map[string]string{}}
@@ -132,12 +140,14 @@ func incrqText(i int, imports []int, v int) string {
 }
 
 type incrqOutcome struct {
-	fatal  string
-	nfiles int
-	diags  string
-	nerr   int
-	fds    string
-	err    string
+	// ordered diagnostics of the Link run and of the FDS run
+	linkDiags, fdsDiags []incrqDiag
+	fatal               string
+	nfiles              int
+	diags               string
+	nerr                int
+	fds                 string
+	err                 string
 }
 
 func (o incrqOutcome) diff(p incrqOutcome) string {
@@ -150,10 +160,150 @@ func (o incrqOutcome) diff(p incrqOutcome) string {
 		return "file-count"
 	case o.diags != p.diags:
 		return "diagnostics"
+	case !incrqKeySorted(o.linkDiags) || !incrqKeySorted(p.linkDiags):
+		// order-sensitive up to ties: both lists must be sorted by Canonicalize's key, so with
+		// equal multisets they can differ only in the order of key-tied diagnostics (C36)
+		return "diagnostics-not-in-canonical-order"
 	case o.fds != p.fds:
 		return "descriptors"
 	}
 	return ""
+}
+
+// incrqDiag is one reported diagnostic: key = the fields Report.Canonicalize sorts by,
+// full = (level, tag, message, file, primary span, notes, help).
+type incrqDiag struct{ key, full string }
+
+func incrqDiagList(rep *report.Report) []incrqDiag {
+	if rep == nil {
+		return nil
+	}
+	out := make([]incrqDiag, 0, len(rep.Diagnostics))
+	for i := range rep.Diagnostics {
+		d := &rep.Diagnostics[i]
+		v := report.VerifViewDiagnostic(d)
+		pr := d.Primary()
+		key := fmt.Sprintf("%s|%d|%d|%d|%s|%s", pr.Path(), v.SortOrder, pr.Start, pr.End, v.Tag, v.Message)
+		full := fmt.Sprintf("L%d|%s|%s|in=%s|%s:%d-%d|notes=%q|help=%q", int(v.Level), v.Tag, v.Message, d.File(), pr.Path(), pr.Start, pr.End, v.Notes, v.Help)
+		out = append(out, incrqDiag{key: Canon(key), full: Canon(full)})
+	}
+	return out
+}
+
+// incrqKeySorted reports whether the list is sorted by Canonicalize's key.
+func incrqKeySorted(l []incrqDiag) bool {
+	return sort.SliceIsSorted(l, func(i, j int) bool { return incrqKeyLess(l[i].key, l[j].key) })
+}
+
+// incrqKeyLess compares two keys field by field like the cmpx.Join in Report.Canonicalize
+// (path, order, start, end, tag, message).
+func incrqKeyLess(a, b string) bool {
+	x, y := strings.SplitN(a, "|", 6), strings.SplitN(b, "|", 6)
+	if len(x) != 6 || len(y) != 6 {
+		return a < b
+	}
+	for i := 0; i < 6; i++ {
+		if x[i] == y[i] {
+			continue
+		}
+		if i >= 1 && i <= 3 {
+			m, _ := strconv.Atoi(x[i])
+			n, _ := strconv.Atoi(y[i])
+			return m < n
+		}
+		return x[i] < y[i]
+	}
+	return false
+}
+
+// incrqDiagDiff compares two ordered diagnostic lists. "" = identical; "tieorder ..." = the same
+// multiset, differing only in the order of diagnostics that tie on Canonicalize's key;
+// otherwise a description of the first difference.
+func incrqDiagDiff(a, b []incrqDiag) string {
+	same := len(a) == len(b)
+	if same {
+		for i := range a {
+			if a[i].full != b[i].full {
+				same = false
+				break
+			}
+		}
+	}
+	if same {
+		return ""
+	}
+	pos := 0
+	for pos < len(a) && pos < len(b) && a[pos].full == b[pos].full {
+		pos++
+	}
+	at := func(l []incrqDiag) string {
+		if pos < len(l) {
+			return l[pos].full
+		}
+		return "<end>"
+	}
+	if len(a) == len(b) {
+		tie := true
+		for i := range a {
+			if a[i].key != b[i].key {
+				tie = false
+				break
+			}
+		}
+		if tie {
+			ms := func(l []incrqDiag) string {
+				x := make([]string, len(l))
+				for i, d := range l {
+					x[i] = d.full
+				}
+				sort.Strings(x)
+				return strings.Join(x, "\x00")
+			}
+			if ms(a) == ms(b) {
+				return fmt.Sprintf("tieorder pos %d [%s] vs [%s]", pos, at(a), at(b))
+			}
+		}
+	}
+	return fmt.Sprintf("n=%d/%d pos %d [%s] vs [%s]", len(a), len(b), pos, at(a), at(b))
+}
+
+// incrqErrText builds an INVALID file: errs is a string of error tokens
+//
+//	l lexical (stray character)      s syntactic (field without a name)
+//	u name resolution (unknown type; repeatable)   d duplicate field number
+//	t duplicate field name           n duplicate message name Dup (within / across files)
+//	m import of a file that does not exist
+func incrqErrText(i int, imports []int, errs string) string {
+	var b strings.Builder
+	b.WriteString("syntax = \"proto3\";\npackage p;\n")
+	for _, j := range imports {
+		fmt.Fprintf(&b, "import %q;\n", incrqPath(j))
+	}
+	for n := 0; n < strings.Count(errs, "m"); n++ {
+		fmt.Fprintf(&b, "import \"nope%d_%d.proto\";\n", i, n)
+	}
+	fmt.Fprintf(&b, "message M%d {\n  int32 x = 1;\n", i)
+	num := 10
+	for n, c := range errs {
+		switch c {
+		case 'l':
+			fmt.Fprintf(&b, "  int32 a%d$b = %d;\n", n, num)
+		case 's':
+			fmt.Fprintf(&b, "  int32 = %d;\n", num)
+		case 'u':
+			fmt.Fprintf(&b, "  Zed%d z%d = %d;\n", n, n, num)
+		case 'd':
+			fmt.Fprintf(&b, "  int32 d%d = 1;\n", n)
+		case 't':
+			fmt.Fprintf(&b, "  int32 x = %d;\n", num)
+		}
+		num++
+	}
+	b.WriteString("}\n")
+	for n := 0; n < strings.Count(errs, "n"); n++ {
+		b.WriteString("message Dup {}\n")
+	}
+	return b.String()
 }
 
 func incrqCompile(ex *incremental.Executor, op source.Opener, sess *ir.Session, ws source.Workspace) (out incrqOutcome) {
@@ -180,6 +330,7 @@ func incrqCompile(ex *incremental.Executor, op source.Opener, sess *ir.Session, 
 	// key is not deterministic (C36's subject): compare the diagnostics as a multiset, each one
 	// rendered on its own.
 	_, nerr, _ := report.Renderer{}.RenderString(rep)
+	out.linkDiags = incrqDiagList(rep)
 	var each []string
 	for _, d := range rep.Diagnostics {
 		one := &report.Report{Options: rep.Options, Diagnostics: []report.Diagnostic{d}}
@@ -192,7 +343,8 @@ func incrqCompile(ex *incremental.Executor, op source.Opener, sess *ir.Session, 
 		// the descriptors always go through queries.FDS / queries.FDP (also for workspaces with
 		// errors: the partial descriptors of the two executors must agree as well)
 		var o fdp.Options
-		fr, _, err := incremental.Run(ctx, ex, queries.FDS{Opener: op, Session: sess, Workspace: ws, Options: o})
+		fr, frep, err := incremental.Run(ctx, ex, queries.FDS{Opener: op, Session: sess, Workspace: ws, Options: o})
+		out.fdsDiags = incrqDiagList(frep)
 		switch {
 		case err != nil:
 			out.fds = "err:" + incrErrClass(err)
@@ -228,6 +380,10 @@ func (e *incrqEngine) abstractKey(k any) string {
 		}
 		if strings.HasPrefix(m[1], "f") && strings.HasSuffix(m[1], ".proto") {
 			return strings.TrimSuffix(strings.TrimPrefix(m[1], "f"), ".proto")
+		}
+		var a, b int
+		if n, _ := fmt.Sscanf(m[1], "nope%d_%d.proto", &a, &b); n == 2 {
+			return strconv.Itoa(1000*a + b) // the never-existing imports of putx files
 		}
 		return "?" + m[1]
 	}
@@ -430,6 +586,33 @@ func incrqShape() string {
 	return "shape " + strings.Join(parts, " ")
 }
 
+// compileWatched runs incrqCompile under a soft deadline (see incr.go): a hang is concluded
+// only when nothing can make progress any more.
+func (e *incrqEngine) compileWatched(ex *incremental.Executor, sess *ir.Session, ws source.Workspace) (incrqOutcome, bool) {
+	ch := make(chan incrqOutcome, 1)
+	go func() { ch <- incrqCompile(ex, e.op, sess, ws) }()
+	timer := time.NewTimer(20 * time.Second)
+	defer timer.Stop()
+	hardCap := time.Now().Add(4 * incrHardCap)
+	quiet := 0
+	for {
+		select {
+		case o := <-ch:
+			return o, true
+		case <-timer.C:
+			if incrAllParked() {
+				quiet++
+			} else {
+				quiet = 0
+			}
+			if quiet >= incrQuietSamples || time.Now().After(hardCap) {
+				return incrqOutcome{}, false
+			}
+			timer.Reset(incrSampleEvery)
+		}
+	}
+}
+
 func (e *incrqEngine) Exec(op string) string {
 	w := strings.Fields(op)
 	if len(w) == 0 {
@@ -465,6 +648,104 @@ func (e *incrqEngine) Exec(op string) string {
 		e.mem.files[incrqPath(i)] = incrqText(i, imps, v)
 		e.mem.mu.Unlock()
 		return "ok"
+	case "putx":
+		// putx <i> <imports|-> <error tokens|->: an invalid file (see incrqErrText)
+		if len(w) != 4 {
+			return "bad-op"
+		}
+		i, err1 := strconv.Atoi(w[1])
+		imps, ok := incrInts(w[2])
+		if err1 != nil || !ok || i < 1 {
+			return "bad-op"
+		}
+		errs := w[3]
+		if errs == "-" {
+			errs = ""
+		}
+		if strings.Trim(errs, "lsudtnm") != "" {
+			return "bad-op"
+		}
+		for _, j := range imps {
+			if j < 1 {
+				return "bad-op"
+			}
+		}
+		e.mem.mu.Lock()
+		e.mem.files[incrqPath(i)] = incrqErrText(i, imps, errs)
+		e.mem.mu.Unlock()
+		return "ok"
+	case "diag":
+		// diag <i,j,..> <reps>: compile the workspace reps times on the long-lived executor (no
+		// eviction in between) and once each on brand-new executors with parallelism 1, 2, 4, 8;
+		// all reports (Link run and FDS run) must be the same ordered lists
+		if len(w) != 3 {
+			return "bad-op"
+		}
+		is, ok := incrInts(w[1])
+		reps, err := strconv.Atoi(w[2])
+		if !ok || len(is) == 0 || err != nil || reps < 1 || reps > 16 {
+			return "bad-op"
+		}
+		var paths []string
+		for _, i := range is {
+			if i < 1 {
+				return "bad-op"
+			}
+			paths = append(paths, incrqPath(i))
+		}
+		ws := e.ws[w[1]]
+		if ws == nil {
+			ws = source.NewWorkspace(paths...)
+			e.ws[w[1]] = ws
+		}
+		var base incrqOutcome
+		verdict := ""
+		cmp := func(kind string, o incrqOutcome) {
+			if verdict != "" {
+				return
+			}
+			switch {
+			case o.err != base.err:
+				verdict = fmt.Sprintf("differ:%s run-error [%s] vs [%s]", kind, base.err, o.err)
+			case incrqDiagDiff(base.linkDiags, o.linkDiags) != "":
+				d := incrqDiagDiff(base.linkDiags, o.linkDiags)
+				if strings.HasPrefix(d, "tieorder") {
+					verdict = fmt.Sprintf("tieorder:%s link %s", kind, d)
+				} else {
+					verdict = fmt.Sprintf("differ:%s link %s", kind, d)
+				}
+			case incrqDiagDiff(base.fdsDiags, o.fdsDiags) != "":
+				d := incrqDiagDiff(base.fdsDiags, o.fdsDiags)
+				if strings.HasPrefix(d, "tieorder") {
+					verdict = fmt.Sprintf("tieorder:%s fds %s", kind, d)
+				} else {
+					verdict = fmt.Sprintf("differ:%s fds %s", kind, d)
+				}
+			}
+		}
+		for i := 0; i < reps; i++ {
+			o, ok := e.compileWatched(e.ex, e.sess, ws)
+			if !ok {
+				return "ran ~ hang run " + strconv.Itoa(i)
+			}
+			if i == 0 {
+				base = o
+			} else {
+				cmp(fmt.Sprintf("runs 0 vs %d", i), o)
+			}
+		}
+		for _, p := range []int{1, 2, 4, 8} {
+			o, ok := e.compileWatched(incremental.New(incremental.WithParallelism(int64(p))), new(ir.Session), ws)
+			if !ok {
+				return "ran ~ hang parallelism " + strconv.Itoa(p)
+			}
+			cmp(fmt.Sprintf("parallelism run0 vs p=%d", p), o)
+		}
+		if verdict == "" {
+			verdict = fmt.Sprintf("same n=%d+%d e=%d", len(base.linkDiags), len(base.fdsDiags), base.nerr)
+		}
+		// the model does not predict diagnostics: everything after " ~ " is for the oracle only
+		return "ran ~ " + Canon(verdict)
 	case "del":
 		if len(w) != 2 {
 			return "bad-op"
@@ -487,6 +768,9 @@ func (e *incrqEngine) Exec(op string) string {
 			keys = append(keys, queries.File{Opener: e.op, Path: incrqPath(i)})
 		}
 		e.ex.Evict(keys...)
+		if e.name == "incr_diag" {
+			return "ok"
+		}
 		return e.keysField()
 	case "link":
 		if len(w) != 2 {
@@ -508,37 +792,11 @@ func (e *incrqEngine) Exec(op string) string {
 			ws = source.NewWorkspace(paths...)
 			e.ws[w[1]] = ws
 		}
-		type res struct{ o incrqOutcome }
-		run := func(ex *incremental.Executor, sess *ir.Session) (incrqOutcome, bool) {
-			ch := make(chan incrqOutcome, 1)
-			go func() { ch <- incrqCompile(ex, e.op, sess, ws) }()
-			// soft deadline (see incr.go): a hang is concluded only when nothing can make progress
-			timer := time.NewTimer(20 * time.Second)
-			defer timer.Stop()
-			hardCap := time.Now().Add(4 * incrHardCap)
-			quiet := 0
-			for {
-				select {
-				case o := <-ch:
-					return o, true
-				case <-timer.C:
-					if incrAllParked() {
-						quiet++
-					} else {
-						quiet = 0
-					}
-					if quiet >= incrQuietSamples || time.Now().After(hardCap) {
-						return incrqOutcome{}, false
-					}
-					timer.Reset(incrSampleEvery)
-				}
-			}
-		}
-		long, ok1 := run(e.ex, e.sess)
+		long, ok1 := e.compileWatched(e.ex, e.sess, ws)
 		if !ok1 {
 			return "hang long-lived"
 		}
-		fresh, ok2 := run(incremental.New(incremental.WithParallelism(int64(e.p))), new(ir.Session))
+		fresh, ok2 := e.compileWatched(incremental.New(incremental.WithParallelism(int64(e.p))), new(ir.Session), ws)
 		if !ok2 {
 			return "hang fresh"
 		}
@@ -565,6 +823,16 @@ func (e *incrqEngine) Trivial(op, ans string) bool { return ans == "ok" }
 
 func (e *incrqEngine) Class(op, ans string) string {
 	w := strings.Fields(op)
+	if w[0] == "diag" {
+		f := strings.Fields(strings.TrimPrefix(ans, "ran ~ "))
+		if len(f) > 0 {
+			c := strings.SplitN(f[0], ":", 2)[0]
+			if c == "same" && len(f) > 1 && f[1] == "n=0+0" {
+				return "diag-same-no-diagnostics"
+			}
+			return "diag-" + c
+		}
+	}
 	if w[0] == "link" {
 		if strings.HasPrefix(ans, "agree") {
 			if strings.Contains(ans, "Z") {
@@ -585,7 +853,97 @@ type incrqFile struct {
 	present bool
 }
 
+// genDiag: INVALID workspaces (errors at several stages and in several files), compiled
+// repeatedly on one executor and on fresh executors of several parallelisms.
+func (e *incrqEngine) genDiag(r *Rand, tier string) [][]string {
+	var cases [][]string
+	// directed: one file with 1 parse-stage and 3 IR-stage errors (and neighbours of that shape:
+	// the memoized diagnostics slices of the IR and AST tasks have different spare capacities)
+	for _, errs := range []string{"suuu", "su", "suu", "suuuu", "uuus", "lsuuu", "ssuuu", "suuud", "l", "u", "s", "-"} {
+		cases = append(cases, []string{"new 1", "putx 1 - " + errs, "diag 1 3", "diag 1 2"})
+	}
+	cases = append(cases,
+		[]string{"new 2", "putx 1 - suuu", "putx 2 1 uus", "diag 1,2 3", "diag 2 3", "diag 2,1 3"},
+		[]string{"new 4", "putx 1 - n", "putx 2 - n", "putx 3 1,2 mu", "diag 1,2,3 3", "putx 2 - suuu", "evict 2", "diag 1,2,3 3", "del 1", "evict 1", "diag 1,2,3 3", "diag 3 3"},
+		[]string{"new 3", "putx 1 - mm", "putx 2 - mm", "putx 3 - m", "diag 1,2,3 4"},
+		// two workspace files that do not exist: their span-less "file does not exist" diagnostics
+		// tie on Canonicalize's sort key, so their order is whatever order the tasks were visited in
+		[]string{"new 4", "putx 1 - u", "diag 1,2,3 4", "diag 3,2,1 3"},
+	)
+	n := 40
+	if tier == "thorough" {
+		n = 1200
+	}
+	toks := []byte("lsudtnm")
+	for c := 0; c < n; c++ {
+		nf := 1 + r.Intn(4)
+		ops := []string{fmt.Sprintf("new %d", Pick(r, []int{1, 2, 4, 8}))}
+		gen := func(i int) string {
+			var imps []int
+			for j := 1; j < i; j++ {
+				if r.Chance(1, 2) {
+					imps = append(imps, j)
+				}
+			}
+			var errs []byte
+			if r.Chance(1, 2) {
+				// the parse-error + k IR-errors shape
+				errs = append(errs, 's')
+				for k := 1 + r.Intn(4); k > 0; k-- {
+					errs = append(errs, 'u')
+				}
+			} else {
+				for k := r.Intn(5); k > 0; k-- {
+					errs = append(errs, Pick(r, toks))
+				}
+			}
+			if r.Chance(1, 3) {
+				errs = []byte(incrShuffleBytes(r, errs))
+			}
+			es := string(errs)
+			if es == "" {
+				es = "-"
+			}
+			return fmt.Sprintf("putx %d %s %s", i, incrJoin(imps), es)
+		}
+		for i := 1; i <= nf; i++ {
+			ops = append(ops, gen(i))
+		}
+		all := make([]int, nf)
+		for i := range all {
+			all[i] = i + 1
+		}
+		ops = append(ops, fmt.Sprintf("diag %s %d", incrJoin(all), 3+r.Intn(2)))
+		if nf > 1 {
+			ops = append(ops, fmt.Sprintf("diag %s 3", incrJoin(incrShuffle(r, all)[:1+r.Intn(nf)])))
+		}
+		if r.Chance(1, 2) {
+			i := 1 + r.Intn(nf)
+			if r.Chance(1, 4) {
+				ops = append(ops, fmt.Sprintf("del %d", i))
+			} else {
+				ops = append(ops, gen(i))
+			}
+			ops = append(ops, fmt.Sprintf("evict %d", i), fmt.Sprintf("diag %s 3", incrJoin(all)))
+		}
+		cases = append(cases, ops)
+	}
+	return cases
+}
+
+func incrShuffleBytes(r *Rand, b []byte) []byte {
+	out := append([]byte{}, b...)
+	for i := len(out) - 1; i > 0; i-- {
+		j := r.Intn(i + 1)
+		out[i], out[j] = out[j], out[i]
+	}
+	return out
+}
+
 func (e *incrqEngine) Gen(r *Rand, tier string) [][]string {
+	if e.name == "incr_diag" {
+		return e.genDiag(r, tier)
+	}
 	thorough := tier == "thorough"
 	var cases [][]string
 	putLine := func(i int, imps []int, v int) string {
@@ -605,6 +963,8 @@ func (e *incrqEngine) Gen(r *Rand, tier string) [][]string {
 		[]string{"new 2", "put 1 - 0", "put 2 1 2", "put 3 2,1 2", "link 1,2,3", "dump",
 			"put 1 - 10", "evict 1", "link 1,2,3", "link 2", "dump",
 			"put 1 - 0", "evict 1", "link 2,3", "put 1 - 11", "evict 1", "link 1,2,3", "put 1 - 10", "evict 1", "link 3", "dump"},
+		// invalid files with errors at several stages, compiled repeatedly without eviction
+		[]string{"new 1", "putx 1 - suuu", "link 1", "link 1", "putx 2 1 uus", "evict 2", "link 1,2", "link 1,2", "link 2", "dump"},
 		[]string{"new 1", "put 1 - 4", "put 2 - 4", "link 1,2", "put 2 - 0", "evict 2", "link 1,2", "link 2,1", "put 3 2,2,1 2", "evict 3", "link 3", "del 2", "evict 2", "link 3", "dump"},
 	)
 	n := 60
